@@ -241,6 +241,10 @@ def run(ck):
     ck.ob('PROV-lookup', sb.loc(cg), not cls_level and len(init_tbl) == 1, 'the table is created per processor instance (no class-level mutable state shared between runs)',
           key='PROV-lookup|per-instance')
     from . import shared
+    # the Go pipeline first merges all molecules into one (MergeAllMolecules -> Molecule.merge_molecule): site types are `<molecule>_<resid>` and contacts are looked
+    # up by residue, so the merge must keep every atom and give the newcomer's residues numbers above the receiver's (C12's merge clause, evaluated here too)
+    from .c12 import merge_rules
+    merge_rules(ck)
     shared.truthy_zero(ck, [SB, VS, 'vermouth/rcsu/go_utils.py', 'vermouth/rcsu/go_pipeline.py'])
     # ------------------------------------------------------------ KW: the settings given to GoPipeline.run_system reach the processors by *name*
     gp = ck.index.mod('vermouth/rcsu/go_pipeline.py')
